@@ -226,7 +226,7 @@ func TestCheck(t *testing.T) {
 	poolE := evid.RapidEngine("pool", evid.RapidOpts{Quick: 60000, Thorough: 1500000}, genScenario("pool"), account(r, "pool"))
 	r.Main(evid.Meta{
 		Rule:        "operation sequences on message.Options (fresh caller buffer per call, exact / too small / larger) and on pool.Message (typed setters, clone, reset, recycle) against a reference list (ascending by number, insertion order among equals, private value copies); after every step the whole list and every query (Find, HasOption, single and multi-value getters with exact / larger / too-small outputs, Path, LocationPath, Queries, typed getters) are compared; inputs are scribbled over after each call. Exhaustive: every sequence of length <= 4 over {set, add, remove} x 3 ids x 2 values x 3 capacities x both targets; random: sequences of 1-14 ops over 11 option numbers, values 0-300 bytes, a path grammar with empty / 255 / 256-byte segments. Non-trivial = an insertion before an existing larger number, a set on an option that has >= 2 values, or (pool) more than 256 value bytes so that the value buffer grows; distinct by scenario",
-		Assumptions: []string{"after ErrTooSmall from message.Options the list is only required to support the documented retry with a larger buffer on the returned list", "SetPath(\"\") is a documented no-op; the path round-trip law is asserted for paths with at least one non-empty segment", "GetUint32 on values longer than 4 bytes is only required not to crash"},
+		Assumptions: []string{"after ErrTooSmall from message.Options the list is only required to support the documented retry with a larger buffer on the returned list", "SetPath(\"\") is a documented no-op; the path round-trip law is asserted for paths with at least one non-empty segment", "GetUint32 on values longer than 4 bytes is only required not to crash and to agree with GetUint32s"},
 		Floor:       2000,
 	}, exhaustiveEngine(), optsE, poolE)
 }
